@@ -556,7 +556,7 @@ func init() {
 		Bubble: true,
 		Cases: func(tier string) int {
 			if tier == "thorough" {
-				return 128*5*len(c12RTOs) + 12000
+				return 128*5*len(c12RTOs) + 40000
 			}
 
 			return 128 + 720
